@@ -277,18 +277,44 @@ def check(rep: Report, tier: str, seed: int, prop: str = None):
         specdir = os.path.join(wd, "specs")
         if not os.path.isdir(specdir):
             shutil.copytree(tlc.SPECS, specdir)
-        for name, cfgs in fams.items():
+        cfg = tlc.cfg_text({"Cfg": 0, "Emit": False, "KeepLog": False}, init="MC_Init", next_="Next", invariants=INVS[prop])
+
+        def mc(name, cfgs, budget, **kw):
             with open(os.path.join(specdir, f"BtD_MC_{name}.tla"), "w") as f:
                 f.write(mc_module(name, cfgs))
-            cfg = tlc.cfg_text({"Cfg": 0, "Emit": False, "KeepLog": False}, init="MC_Init", next_="Next", invariants=INVS[prop])
-            res = tlc.run(f"BtD_MC_{name}", cfg, workdir=wd, timeout=3000)
-            rep.add_tlc(f"BtDispatcher/MC_{name}", res, {"configurations": len(cfgs), "example": cfgs[0]},
-                        "Init chooses one configuration; all interleavings of handler segments and loop steps")
+            return tlc.run(f"BtD_MC_{name}", cfg, workdir=wd, timeout=budget, **kw)
+
+        def report(name, cfgs, res, what):
+            rep.add_tlc(f"BtDispatcher/MC_{name}", res, {"configurations": len(cfgs), "example": cfgs[0]}, what)
             if not res.ok:
                 last = (res.counterexample or [[0, {}]])[-1][1]
                 rep.violation(Violation(prop, res.violated, "mc",
                                         {"family": name, "D": last.get("D"), "bad": last.get("bad"), "log": last.get("log")},
                                         script={"kind": "dispatcher", "D": last.get("D")}, discriminator="model:" + name))
+        for name, cfgs in fams.items():
+            what = "Init chooses one configuration; all interleavings of handler segments and loop steps"
+            seeded_random = name.startswith("random")
+            try:
+                res = mc(name, cfgs, (180 if quick else 1500) if seeded_random else 3000)
+                report(name, cfgs, res, what)
+                continue
+            except tlc.MachineryError as e:
+                if not seeded_random or "timed out" not in str(e):
+                    raise
+            # a seeded random configuration can be far larger than the others: every configuration gets its own budget, the
+            # ones that exceed it are explored by random simulation instead (recorded: they are not exhaustively checked)
+            over = []
+            for k, D in enumerate(cfgs):
+                try:
+                    report(f"{name}_{k}", [D], mc(f"{name}_{k}", [D], 25 if quick else 90, workers=4), what)
+                except tlc.MachineryError as e:
+                    if "timed out" not in str(e):
+                        raise
+                    over.append(D)
+            for k, D in enumerate(over):
+                res = mc(f"{name}_sim{k}", [D], 600, mode="sim", sim_num=300 if quick else 3000, sim_depth=400, seed=seed + k, workers=4)
+                report(f"{name}_sim{k}", [D], res, "random simulation (the exhaustive search of this configuration exceeded its time budget)")
+            rep.extra["mc_budget_exceeded"] = {"family": name, "configurations": len(over), "of": len(cfgs)}
         rep.exhaustive = True
 
         # ---- implementation histories ------------------------------------------------------------------------
@@ -395,9 +421,12 @@ def real_backtests(rep: Report, rng: random.Random, wd: str, quick: bool):
     ctx = mp.get_context("fork")
     with ctx.Pool(tlc.NCPU) as pool:
         runs = pool.map(_run_real, jobs, chunksize=max(1, len(jobs) // (tlc.NCPU * 4)))
+        # fresh interpreters with different hash seeds: the directed multi-pair-signal scenarios always, random ones in the
+        # thorough tier
+        sub = [S for S in c03_real.directed_scenarios() if S.get("hashseeds")]
         if not quick:
-            sub = [dict(c03_real.random_scenario(rng), hashseeds=[0, 1, rng.randint(2, 10**6)]) for _ in range(60)]
-            runs += pool.map(_run_real_subprocess, sub)
+            sub += [dict(c03_real.random_scenario(rng), hashseeds=[0, 1, rng.randint(2, 10**6)]) for _ in range(60)]
+        runs += pool.map(_run_real_subprocess, sub)
     for r in runs:
         if "harness_error" in r:
             raise tlc.MachineryError("real backtest runner failed: " + r["harness_error"])
